@@ -115,6 +115,106 @@ fn run_generic(mode: Mode, args: &Args, prefix: &str, rule: &str) {
 				Ok(())
 			}
 		}
+		// single large reads that fail (and succeed) over a slice and over a recording input: whatever
+		// the wrapper does with a large request, count == bytes that left the wrapped input
+		{
+			fn big<T: Decode>(cx: &mut gen::Cx, name: &str, total: usize, have: usize) {
+				let data: Vec<u8> = (0..have).map(|i| (i * 7) as u8).collect();
+				let mut s = &data[..];
+				let r = std::panic::catch_unwind(std::panic::AssertUnwindSafe(|| {
+					let mut c = CountedInput::new(&mut s);
+					let ok = T::decode(&mut c).map(drop).is_ok();
+					let after_first = c.count();
+					let _ = u8::decode(&mut c);
+					(ok, after_first, c.count())
+				}))
+				.map_err(drop);
+				let consumed = (have - s.len()) as u64;
+				cx.stats.bump(if have >= total { "count/large-read-ok" } else { "count/large-read-fails" });
+				let good = match r {
+					Ok((ok, a, b)) => ok == (have >= total) && b == consumed && (a == consumed || a + 1 == consumed),
+					Err(_) => false,
+				};
+				cx.oracle.check(good, "count!=slice-consumed", || format!("{name} ({total} bytes) through CountedInput over a {have}-byte slice, then one u8: {:?}, slice gave up {consumed}", r));
+			}
+			for have in [0usize, 1, 16383, 16384, 16385, 17000, 19999, 20000, 20001, 32768, 32769, 40000, 40001, 40002, 70000] {
+				big::<[u8; 20000]>(&mut cx, "[u8;20000]", 20000, have);
+				big::<Box<[u8; 20000]>>(&mut cx, "Box<[u8;20000]>", 20000, have);
+				big::<[u16; 10000]>(&mut cx, "[u16;10000]", 20000, have);
+				big::<[u8; 40001]>(&mut cx, "[u8;40001]", 40001, have);
+				big::<([u8; 16384], [u8; 16385])>(&mut cx, "([u8;16384],[u8;16385])", 32769, have);
+				big::<[[u8; 16385]; 2]>(&mut cx, "[[u8;16385];2]", 32770, have);
+			}
+			// raw reads of every size class on the wrapper itself
+			for (want, have) in [(16385usize, 16384usize), (40001, 40000), (40001, 16384), (65536, 65535), (16384, 16383), (50000, 50000)] {
+				let data = vec![3u8; have];
+				let mut s = &data[..];
+				let mut buf = vec![0u8; want];
+				let (ok, count) = {
+					let mut c = CountedInput::new(&mut s);
+					let ok = c.read(&mut buf).is_ok();
+					(ok, c.count())
+				};
+				let consumed = (have - s.len()) as u64;
+				cx.stats.bump("count/raw-large-read");
+				cx.oracle.check(ok == (have >= want) && count == consumed && (ok || count == 0), "count!=slice-consumed", || {
+					format!("CountedInput::read of {want} bytes over a {have}-byte slice: ok={ok} count={count}, slice gave up {consumed}")
+				});
+			}
+		}
+		// the counter over the crate's reader adapter, the reader handing out a few bytes per call:
+		// after a successful decode, count == bytes the reader gave up == encoded length
+		{
+			struct Choppy<'a> {
+				data: &'a [u8],
+				pos: usize,
+				step: usize,
+			}
+			impl<'a> std::io::Read for Choppy<'a> {
+				fn read(&mut self, buf: &mut [u8]) -> std::io::Result<usize> {
+					let n = buf.len().min(self.step).min(self.data.len() - self.pos);
+					buf[..n].copy_from_slice(&self.data[self.pos..self.pos + n]);
+					self.pos += n;
+					Ok(n)
+				}
+			}
+			fn chop<T: Decode + parity_scale_codec::Encode + PartialEq>(cx: &mut gen::Cx, name: &str, v: &T) {
+				let enc = v.encode();
+				for step in [1usize, 2, 3, 7, 1 << 20] {
+					for cut in [enc.len(), enc.len().saturating_sub(1), enc.len() / 2, 1] {
+						let cut = cut.min(enc.len());
+						let mut rd = Choppy { data: &enc[..cut], pos: 0, step };
+						let r = std::panic::catch_unwind(std::panic::AssertUnwindSafe(|| {
+							let mut io = parity_scale_codec::IoReader(&mut rd);
+							let mut c = CountedInput::new(&mut io);
+							let d = T::decode(&mut c);
+							(d.ok(), c.count())
+						}));
+						let gave = rd.pos as u64;
+						cx.stats.bump("count/io-reader");
+						let good = match &r {
+							Ok((Some(w), n)) => cut == enc.len() && w == v && *n == gave && gave == enc.len() as u64,
+							Ok((None, n)) => cut < enc.len() && *n <= gave,
+							Err(_) => false,
+						};
+						cx.oracle.check(good, "count!=delivered", || {
+							format!("{name} through CountedInput<IoReader<reader handing out {step} bytes per call>>: input {} of {} encoded bytes, decoded={} count={:?}, the reader gave up {gave}", cut, enc.len(), matches!(&r, Ok((Some(_), _))), r.as_ref().ok().map(|x| x.1))
+						});
+					}
+				}
+			}
+			chop(&mut cx, "u32", &0xdead_beefu32);
+			chop(&mut cx, "u64", &0x0123_4567_89ab_cdefu64);
+			chop(&mut cx, "u128", &(u128::MAX / 3));
+			chop(&mut cx, "(u8,u32,u16)", &(7u8, 0x01020304u32, 0x0a0bu16));
+			chop(&mut cx, "Compact<u64>", &parity_scale_codec::Compact(u64::MAX - 1));
+			chop(&mut cx, "Vec<u16>", &(0..300u16).collect::<Vec<_>>());
+			chop(&mut cx, "Vec<u8>", &(0..300u32).map(|x| x as u8).collect::<Vec<u8>>());
+			chop(&mut cx, "String", &"counting input €".to_string());
+			chop(&mut cx, "[u8;33]", &[9u8; 33]);
+			chop(&mut cx, "Option<[u32;5]>", &Some([1u32, 2, 3, 4, 5]));
+			chop(&mut cx, "Vec<(u8,String)>", &vec![(1u8, "a".to_string()), (2, "bcd".to_string())]);
+		}
 		const N: usize = (1 << 32) + 5;
 		let mut z = Zeros(0);
 		let r = std::panic::catch_unwind(std::panic::AssertUnwindSafe(|| {
